@@ -155,6 +155,46 @@ def check_translation(case, ctx):
                     f'on the canvas')
             npaired += _cmp_tables(t0, t1, dx, dy, lambda k: True, api,
                                    key=('x_peak', 'y_peak'))
+        elif api == 'centroids':
+            # centroid_sources / find_peaks(centroid_func=...) with a
+            # spatially varying error map
+            from photutils.centroids import (centroid_1dg, centroid_2dg,
+                                             centroid_com, centroid_quadratic,
+                                             centroid_sources)
+            func = [centroid_com, centroid_quadratic, centroid_1dg,
+                    centroid_2dg][case['aux_seed'] % 4]
+            pos = [(s['x'], s['y']) for s in case['scene']['sources']]
+            pos = [(x, y) for (x, y) in pos if 6 <= x <= nx - 7 and 6 <= y <= ny - 7]
+            if not pos:
+                return
+            x0 = np.array([p[0] for p in pos])
+            y0 = np.array([p[1] for p in pos])
+            kw = {'error': err} if (err is not None and func in (centroid_1dg, centroid_2dg)) else {}
+            bkw = {'error': berr} if kw else {}
+            bs = case['box'] + 4
+            X0, Y0 = centroid_sources(img, x0, y0, box_size=bs, mask=mask,
+                                      centroid_func=func, **kw)
+            X1, Y1 = centroid_sources(big, x0 + dx, y0 + dy, box_size=bs,
+                                      mask=bmask, centroid_func=func, **bkw)
+            ctol = 1e-9 if func in (centroid_com, centroid_quadratic) else 1e-5
+            for k in range(len(x0)):
+                if not (close(X1[k], X0[k] + dx, 0, ctol) and close(Y1[k], Y0[k] + dy, 0, ctol)):
+                    raise Violation('translation_value',
+                                    f'centroid_sources({func.__name__}, error='
+                                    f'{bool(kw)}) gives ({X0[k]}, {Y0[k]}) in the '
+                                    f'frame and ({X1[k]}, {Y1[k]}) on the canvas '
+                                    f'(offset ({dx},{dy}))', api='centroid_sources')
+                npaired += 1
+            t0 = find_peaks(img, thr * 3, box_size=case['box'] + 2, mask=mask,
+                            centroid_func=func, error=err if kw else None,
+                            border_width=4)
+            t1 = find_peaks(big, thr * 3, box_size=case['box'] + 2, mask=bmask,
+                            centroid_func=func, error=berr if kw else None)
+            if t0 is not None:
+                require(t1 is not None, 'translation_none', 'find_peaks+centroid')
+                npaired += _cmp_tables(t0, t1, dx, dy, lambda k: True,
+                                       'find_peaks+' + func.__name__, tol=1e-5,
+                                       key=('x_peak', 'y_peak'))
         elif api in ('dao', 'iraf', 'star'):
             if api == 'dao':
                 mk = lambda: DAOStarFinder(thr, 3.0)  # noqa: E731
@@ -334,7 +374,7 @@ def translation_cases(draw):
             'api': draw(st.sampled_from(['aperture', 'find_peaks', 'dao', 'iraf',
                                          'star', 'detect', 'deblend', 'catalog',
                                          'catalog', 'profile', 'model',
-                                         'dao_xycoords'])),
+                                         'dao_xycoords', 'centroids'])),
             'half': draw(st.lists(st.integers(0, 3), min_size=1, max_size=5)),
             'thr': draw(st.sampled_from([2.5, 4.0])), 'box': draw(st.sampled_from([3, 5])),
             'r': draw(st.floats(1.5, 5.0)), 'shape': draw(st.sampled_from(['circle', 'ellipse'])),
